@@ -41,9 +41,23 @@ def run_one(ch, maxthreads, nsub, with_stop):
         def is_alive(self):
             return self.t is not None and self.t.state != "done"
 
-    saved = (_pool.Lock, _pool.Queue)
+    # Team keeps idle workers in a set: give the (otherwise unmodified) ThreadWorker a creation-order
+    # hash so that set.pop() does not depend on memory addresses (replay determinism)
+    created = [0]
+
+    class OrderedThreadWorker(_pool.ThreadWorker):
+        def __init__(self, *a, **kw):
+            created[0] += 1
+            self._verif_order = created[0]
+            super().__init__(*a, **kw)
+
+        def __hash__(self):
+            return self._verif_order
+
+    saved = (_pool.Lock, _pool.Queue, _pool.ThreadWorker)
     _pool.Lock = lambda: CoopLock(s, "coordinator-lock")
     _pool.Queue = lambda: CoopQueue(s, "worker-queue")
+    _pool.ThreadWorker = OrderedThreadWorker
     try:
         tp = threadpool.ThreadPool(minthreads=0, maxthreads=maxthreads, name="x")
         tp.threadFactory = CoopThread
@@ -90,7 +104,7 @@ def run_one(ch, maxthreads, nsub, with_stop):
             s.spawn("sub%d" % i, submitter(i))
         s.run()
     finally:
-        _pool.Lock, _pool.Queue = saved
+        _pool.Lock, _pool.Queue, _pool.ThreadWorker = saved
     for name, exc in s.errors():
         bad.append(("thread-died:%s:%s" % (name.split("-")[0].rstrip("0123456789"), type(exc).__name__), "%s: %r" % (name, exc)))
     if s.deadlock:
